@@ -23,10 +23,29 @@ it is unreachable.
 -/
 namespace Twisted.Threads
 
-/-- a task: identifier and kind.  kind 0: returns; 1: raises (Team calls `logException`);
-    2: ThreadPool call that returns (`onResult(True, …)`); 3: ThreadPool call that raises
-    (`onResult(False, Failure)`, nothing reaches `Team`'s handler). -/
+/-- a task: identifier and kind.  "raises" stands for any `BaseException` (both `Team`'s `doWork` and
+    `ThreadPool`'s `inContext` catch `BaseException`, so the class makes no difference).
+    kind 0: returns; 1: raises (Team calls `logException`);
+    ThreadPool calls (`inContext` closures; `func`, then the report of its outcome):
+    2: `func` returns, `onResult(True, …)` returns;   3: `func` raises, `onResult(False, Failure)` returns
+       (nothing reaches `Team`'s handler);
+    4: `func` returns, `onResult(True, …)` RAISES;    5: `func` raises, `onResult(False, Failure)` RAISES
+       (the callback's own exception leaves `inContext`: `Team` calls `logException`; `onResult` is not called again);
+    6: `func` returns, `onResult is None` (nothing);  7: `func` raises, `onResult is None` (`log.err(failure)`). -/
 abbrev Task := Nat × Nat
+
+/-- how the `onResult` argument of `callInThreadWithCallback` behaves -/
+inductive Cb where
+  | returns   -- a callback that returns normally
+  | raises    -- a callback that raises (a fault inside the result callback)
+  | absent    -- `onResult is None` (`callInThread`)
+  deriving Repr, DecidableEq
+
+/-- the task kind of a ThreadPool call -/
+def callKind (raises : Bool) : Cb → Nat
+  | .returns => if raises then 3 else 2
+  | .raises => if raises then 5 else 4
+  | .absent => if raises then 7 else 6
 
 /-- items of the coordinator's queue (the closures `Team` passes to `_coordinator.do`) -/
 inductive CItem where
@@ -48,9 +67,10 @@ inductive Ev where
   | run (t : Nat) (w : Nat)                       -- task `t` was called on worker `w`
   | err (t : Nat)                                 -- `logException()` for task `t`
   | res (t : Nat) (ok : Bool)                     -- `onResult(ok, …)` for ThreadPool call `t`
+  | logerr (t : Nat)                              -- `log.err(failure)` of `inContext` (failed call without callback)
   | wquit (w : Nat)                               -- `worker.quit()`
   | cquit                                         -- `coordinator.quit()`
-  | accept (t : Nat)                              -- `Team.do(task)` returned normally
+  | accept (t : Task)                             -- `Team.do(task)` returned normally (the task is ghost information)
   | refused (what : Nat)                          -- `AlreadyQuit` out of do(0)/grow(1)/shrink(2)/quit(3)
   | dropped (t : Nat)                             -- `callInThreadWithCallback` after `stop()` (silently ignored)
   | assertion                                     -- `AssertionError` out of `adjustPoolsize`
@@ -192,6 +212,9 @@ def taskEvents (t : Task) (w : Nat) : List Ev :=
   if t.2 = 1 then [.run t.1 w, .err t.1]
   else if t.2 = 2 then [.run t.1 w, .res t.1 true]
   else if t.2 = 3 then [.run t.1 w, .res t.1 false]
+  else if t.2 = 4 then [.run t.1 w, .res t.1 true, .err t.1]
+  else if t.2 = 5 then [.run t.1 w, .res t.1 false, .err t.1]
+  else if t.2 = 7 then [.run t.1 w, .logerr t.1]
   else [.run t.1 w]
 
 /-- `perform()` of worker `w`: run `doWork` (the task, then hand `idleAndPending` to the coordinator) -/
@@ -231,7 +254,7 @@ def teamSubmit (s : St) (what : Nat) (c : CItem) : St × Bool :=
 
 def teamDo (s : St) (t : Task) : St × Bool :=
   if s.quit || s.coordQuit then (s.emit (.refused 0), false)
-  else (({ s with coordQ := s.coordQ ++ [CItem.coord t] }).emit (.accept t.1), true)
+  else (({ s with coordQ := s.coordQ ++ [CItem.coord t] }).emit (.accept t), true)
 def teamGrow (s : St) (n : Nat) : St × Bool := s.teamSubmit 1 (.grow n)
 def teamShrink (s : St) (n : Option Nat) : St × Bool := s.teamSubmit 2 (.shrink n)
 
@@ -276,9 +299,9 @@ def poolStart (s : St) : St :=
 def poolStop (s : St) : St :=
   ({ s with joined := true, started := false, limit := 0 }).teamQuit.1
 
-/-- `ThreadPool.callInThreadWithCallback(onResult, func)`; `raises` = `func` raises -/
-def poolCall (s : St) (t : Nat) (raises : Bool) : St :=
-  if s.joined then s.emit (.dropped t) else (s.teamDo (t, if raises then 3 else 2)).1
+/-- `ThreadPool.callInThreadWithCallback(onResult, func)`; `raises` = `func` raises, `cb` = what `onResult` is -/
+def poolCall (s : St) (t : Nat) (raises : Bool) (cb : Cb) : St :=
+  if s.joined then s.emit (.dropped t) else (s.teamDo (t, callKind raises cb)).1
 
 end St
 
@@ -293,7 +316,7 @@ inductive Op where
   | any (k : Nat)
   | pStart
   | pStop
-  | pCall (t : Nat) (raises : Bool)
+  | pCall (t : Nat) (raises : Bool) (cb : Cb)
   | pAdjust (mn mx : Option Int)
   | pStartWorker
   | pStopWorker
@@ -310,7 +333,7 @@ def applyOp (s : St) : Op → St
   | .any k => s.stepAny k
   | .pStart => s.poolStart
   | .pStop => s.poolStop
-  | .pCall t r => s.poolCall t r
+  | .pCall t r cb => s.poolCall t r cb
   | .pAdjust mn mx => (s.poolAdjust mn mx).1
   | .pStartWorker => (s.teamGrow 1).1
   | .pStopWorker => (s.teamShrink (some 1)).1
